@@ -399,7 +399,13 @@ def gen_chunk(rng, cls):
         if rng.random() < 0.3:
             c["truncate"] = rng.choice([0, 1, 4, 7, 8, 9, 12, 16])
             del c["truncate_frac"]
-    if cls == "early-close":
+    if cls == "early-close" and rng.random() < 0.4:
+        # the transport FAILS part-way (time-out, reset) instead of ending: recv() raises after some pieces
+        c["raise_after"] = rng.randrange(0, 3)
+        c["raise"] = rng.choice(["timeout", "reset"])
+        if not c["sizes"]:
+            c["sizes"] = [rng.choice([3, 8, 11, 61])]
+    elif cls == "early-close":
         c["empty_after"] = rng.randrange(0, 3)
         if not c["sizes"]:
             c["sizes"] = [rng.choice([3, 8, 11])]
